@@ -1,6 +1,7 @@
 package props
 
 import (
+	"bytes"
 	"encoding/json"
 	"fmt"
 	"os"
@@ -97,7 +98,7 @@ func c09Run(e *Env, c *c09Case) {
 		fail("C09/hang/"+key, "does not terminate")
 		return
 	case r.Crashed():
-		fail("C09/crash/"+key+"/"+c09CrashKind(r.Stderr), "crashes: "+firstLineWith(r.Stderr, "panic", "fatal error", "signal"))
+		fail("C09/crash/"+key+"/"+c09CrashKind(append(append([]byte{}, r.Stderr...), r.Stdout...)), "crashes: "+firstLineWith(append(append([]byte{}, r.Stderr...), r.Stdout...), "panic", "PANIC=", "fatal error", "signal"))
 		return
 	}
 	if r.Exit != 0 {
@@ -285,6 +286,9 @@ func goyaccDebugOnly(b []byte) bool {
 }
 
 func c09CrashKind(stderr []byte) string {
+	if bytes.Contains(stderr, []byte("(PANIC=")) {
+		return "panic-inside-formatting"
+	}
 	s := string(stderr)
 	switch {
 	case strings.Contains(s, "nil pointer"):
@@ -558,6 +562,10 @@ func runC09(e *Env) {
 		}
 		nonsense("unknown-symbol/yaml", "- chord:\n    degree: \"1\"\n    name: \"xyz\"\n"+okValues, cmd, nil)
 		nonsense("bad-degree/yaml", "- chord:\n    degree: \"x\"\n    name: \"\"\n"+okValues, cmd, nil)
+		nonsense("bad-degree/yaml", "- chord:\n    name: \"\"\n"+okValues, cmd, nil)
+		nonsense("bad-degree/yaml", "- chord: {}\n"+okValues, cmd, nil)
+		nonsense("bad-degree/yaml", "- chord:\n    degree: \"\"\n    name: \"\"\n"+okValues, cmd, nil)
+		nonsense("bad-degree/yaml", "- chord:\n    degree: \"1\"\n    name: \"\"\n    base: \"\"\n"+okValues, cmd, nil)
 		nonsense("bad-degree/yaml", "- chord:\n    degree: \"0\"\n    name: \"\"\n"+okValues, cmd, nil)
 		nonsense("bad-degree/yaml", "- chord:\n    degree: \"1\"\n    name: \"\"\n    base: \"q\"\n"+okValues, cmd, nil)
 		for _, v := range []string{"", "[]", "null", "{}", "- \n"} {
@@ -700,6 +708,12 @@ func runC09(e *Env) {
 	}
 	for _, t := range []string{"2", "33", "70000"} {
 		add("flag-value", "any", c09ValidDoc, "write", "--track", t)
+	}
+	// track counts around the 15-, 16-bit boundaries on every command that takes --track
+	for _, t := range []string{"255", "256", "257", "32767", "32768", "32769", "40000", "65535", "65536"} {
+		for _, cmd := range [][]string{{"write"}, {"write", "event"}, {"write", "parse"}, {"write", "conv", "-c", "cmt"}} {
+			add("flag-value", "any", c09ValidDoc, append(append([]string{}, cmd...), "--track", t)...)
+		}
 	}
 	// pairs of flags on one command line: every two flags of write / write event, each with a valid
 	// and a nonsense value (all-valid lines must succeed, the others fail in the documented shape)
